@@ -305,6 +305,15 @@ func (sg *scenGen) genCall(slotsRead []int, slotWrite int, legacy bool) Call {
 	if usesB(c.Fn) && r.P(80) {
 		c.A, c.B = sg.anyBuf(), sg.anyBuf()
 	}
+	if usesB(c.Fn) && r.P(60) {
+		c.B, c.PrivB = c.A, c.PrivA // the very same slice twice
+	}
+	if r.P(12) && c.Fn != FnAccessors {
+		c.NilA = true
+	}
+	if usesB(c.Fn) && r.P(12) {
+		c.NilB = true
+	}
 	c.Name = FnNames[c.Fn]
 	return c
 }
